@@ -114,4 +114,41 @@ class C02(Prop):
         return []
 
 
+    def py_sweeps(self, tier):
+        import datetime
+        import math
+
+        import pandas as pd
+        from pdtable.io.parsers.columns import parse_column
+
+        from .. import tables as T
+
+        nan = float("nan")
+        good = [("text", ["a", "", 5, None, " x "], ["a", "", "5", "None", " x "]),
+                ("onoff", ["1", "0", True, 0, " TRUE ", "false"], [True, False, True, False, True, False]),
+                ("-", ["1.5", "-", None, 3, "NaN", " 2e3 ", True], [1.5, nan, nan, 3.0, nan, 2000.0, 1.0]),
+                ("kg", ["nan", 2.5], [nan, 2.5]),
+                ("datetime", ["2020-01-02", "-", datetime.datetime(2020, 1, 2, 3), " 2020-01-02 03:04:05 ", "nan"],
+                 [pd.Timestamp("2020-01-02"), pd.NaT, pd.Timestamp("2020-01-02 03:00"), pd.Timestamp("2020-01-02 03:04:05"), pd.NaT])]
+        bad = [("onoff", ["maybe"]), ("onoff", [2]), ("onoff", [None]), ("-", ["abc"]), ("m", [""]), ("m", [datetime.date(2020, 1, 1)]),
+               ("datetime", ["abc"]), ("datetime", [5]), ("datetime", [""]), ("datetime", [None]), ("datetime", ["2020-13-45"])]
+        fails = []
+        for unit, vals, want in good:
+            try:
+                got = list(parse_column(unit, vals))
+                if [T.tok(x) for x in got] != [T.tok(x) for x in want]:
+                    fails.append(f"parse_column({unit!r}, {vals!r}) without a fixer gave {got!r}")
+            except Exception as e:
+                fails.append(f"parse_column({unit!r}, {vals!r}) without a fixer raised {type(e).__name__}")
+        for unit, vals in bad:
+            try:
+                got = list(parse_column(unit, vals))
+                fails.append(f"parse_column({unit!r}, {vals!r}) without a fixer accepted the illegal cell: {got!r}")
+            except ValueError:
+                pass
+            except Exception as e:
+                fails.append(f"parse_column({unit!r}, {vals!r}) without a fixer raised {type(e).__name__}, not a ValueError")
+        return fails, {"direct_parse_column_calls": len(good) + len(bad)}
+
+
 PROP = C02()
